@@ -17,6 +17,7 @@ package proxy
 import (
 	"bytes"
 	"context"
+	"errors"
 	"encoding/hex"
 	"fmt"
 	"sort"
@@ -40,7 +41,7 @@ import (
 // ------------------------------------------------------------------ shared pieces
 
 type c13Op struct {
-	K string `json:"k"`           // S SC F R RU C | B
+	K string `json:"k"`           // S SC SE F R RU C | B
 	I int    `json:"i,omitempty"` // id
 	V int    `json:"v,omitempty"` // R: 0 failure, 1 success+data, 2 success+empty data; B: 0 data, 1 empty data
 }
@@ -210,6 +211,10 @@ func (c *c13Consumer) OnMessageResponse(body []byte) error {
 		e.consumerThread = e.x.CurID()
 		e.send("plain")
 		e.consumerDepth--
+	}
+	if m.kind == "err" {
+		// a consumer may fail; the message has still been answered
+		return errors.New("verif: consumer failed")
 	}
 	return nil
 }
@@ -730,6 +735,8 @@ func runPrelogin(h []c13Op) bfs.Outcome {
 				e.send("plain")
 			case "SC":
 				e.send("chain")
+			case "SE":
+				e.send("err")
 			case "F":
 				e.fire()
 			case "R":
@@ -757,7 +764,7 @@ func preloginEnabled(h []c13Op, op c13Op) bool {
 	sends, fired := 0, false
 	for _, o := range h {
 		switch o.K {
-		case "S":
+		case "S", "SE":
 			sends++
 		case "SC":
 			sends += 2
@@ -766,7 +773,7 @@ func preloginEnabled(h []c13Op, op c13Op) bool {
 		}
 	}
 	switch op.K {
-	case "S":
+	case "S", "SE":
 		return sends+1 <= 4
 	case "SC":
 		return sends+2 <= 4
@@ -871,6 +878,19 @@ func scenarios() []schedrun.Scenario {
 				g := r.backendGot()
 				sort.Strings(g)
 				x.Outcome(strings.Join(g, ","))
+			})
+		}},
+		// a consumer that returns an error: it has been answered all the same, completion still runs once
+		{Name: "erroring-consumer-vs-send", Quick: -1, Thorough: -1, Body: func(x *sched.X) {
+			e := newEnv(x, true)
+			e.send("err")
+			e.fire()
+			x.Go("handler", func() { e.send("err") })
+			x.Go("readloop", func() { e.respond(1, 1); e.respond(2, 0) })
+			x.AtEnd(func() {
+				e.drain()
+				e.final()
+				x.Outcome(fmt.Sprintf("inv=%s done=%d", e.invSummary(), e.completions))
 			})
 		}},
 		// ---- causal clients: the responder answers a message only after it has OBSERVED it among the
@@ -1019,7 +1039,7 @@ func TestVerif(t *testing.T) {
 		if r.Thorough() {
 			depth, rdepth = 8, 8
 		}
-		preOps := []c13Op{{K: "S"}, {K: "F"}, {K: "R", I: 1, V: 1}, {K: "R", I: 2, V: 1}, {K: "SC"}, {K: "R", I: 1, V: 0}, {K: "R", I: 3, V: 2}, {K: "R", I: 2, V: 0}, {K: "RU"}, {K: "R", I: 4, V: 1}, {K: "C"}}
+		preOps := []c13Op{{K: "S"}, {K: "F"}, {K: "SE"}, {K: "R", I: 1, V: 1}, {K: "R", I: 2, V: 1}, {K: "SC"}, {K: "R", I: 1, V: 0}, {K: "R", I: 3, V: 2}, {K: "R", I: 2, V: 0}, {K: "RU"}, {K: "R", I: 4, V: 1}, {K: "C"}}
 		res := bfs.Explore(bfs.Config[c13Op]{Name: "prelogin", Ops: preOps, Depth: depth, Run: runPrelogin, Enabled: preloginEnabled,
 			Shard: r.Shard, NShards: r.NShards, Deadline: r.DeadlineTime()})
 		res.Merge(r, "prelogin")
